@@ -80,6 +80,29 @@ type Effect struct {
 	Ret   []Val // %0 = the rendered argument
 }
 
+// Step: a statement with an effect outside the pure subset (lock, channel operation, call of a
+// sibling method that can fail), rendered from a template. Keys are statement keys:
+//
+//	recv.lock.Lock()          expression statement (call or channel receive `<-recv.ch`)
+//	defer recv.lock.Unlock()  deferred call: Pre is emitted before every return that follows
+//	recv.ch <- %0             send statement; %0 = the rendered value (type ArgTy)
+//	%v := <-recv.ch           definition from a receive or call; %v = the bound name (type BindTy)
+//
+// Pre lines are emitted at the current indentation, then the rest of the function, then Post
+// (which closes what Pre opened). A step may leave the function (`.error …`), so it is only
+// accepted outside loops, and an `if` containing one is never rendered as a join.
+// `if CALL == e {…}` with a `%v := CALL` step is first rewritten to `h := CALL; if h == e {…}`.
+type Step struct {
+	Pre    []string
+	Post   string
+	ArgTy  string
+	BindTy string
+	Defer  bool
+}
+
+// FailMode: the function's Lean type is `Except Ty _`; Panic is the value of a failed bounds test.
+type FailMode struct{ Ty, Panic string }
+
 type FnSpec struct {
 	Dir     string // package directory, e.g. "channel"
 	Recv    string // receiver type name, "" for a plain function
@@ -91,6 +114,10 @@ type FnSpec struct {
 	Funcs   map[string]LibFn  // call key → Lean function (method calls, sibling functions)
 	State   []StateVar        // mutable fields
 	Effects map[string]Effect // call key → effect
+	Steps   map[string]Step   // statement key → templated step
+	Fail    *FailMode         // nil: `Option _` when the body indexes, plain otherwise
+	// NilResult: a []byte result is rendered as `Option Bytes` (`return nil` = none)
+	NilResult bool
 }
 
 type BodyFile struct {
@@ -170,6 +197,8 @@ func leanTy(ty string) string {
 		return "Go.Error"
 	case "unit":
 		return "Unit"
+	case "optbytes":
+		return "Option Bytes"
 	}
 	if strings.HasPrefix(ty, "opaque:") {
 		return strings.TrimPrefix(ty, "opaque:")
@@ -811,6 +840,8 @@ func (t *bodyTr) call(x *ast.CallExpr, sc bscope, want string) Val {
 type bctx struct {
 	retRaw func(r string) string // leave the function with the already packaged result r
 	fall   func(sc bscope, ind string) string
+	// Lean lines of the deferred calls registered so far (run before every return)
+	deferred []string
 	brk    func() string // nil outside loops
 	cont   func() string
 }
@@ -836,13 +867,84 @@ func (t *bodyTr) stateNames() []string {
 // pack builds the function result from the Go results and the current state
 func (t *bodyTr) pack(vals []string) string {
 	r := tuple(append(append([]string{}, vals...), t.stateNames()...))
+	if t.spec.Fail != nil {
+		return "(.ok " + r + ")"
+	}
 	if t.mayPanic {
 		return "(some " + r + ")"
 	}
 	return r
 }
 
-func (t *bodyTr) panicVal() string { return "none" }
+func (t *bodyTr) panicVal() string {
+	if t.spec.Fail != nil {
+		return "(" + t.spec.Fail.Panic + ")"
+	}
+	return "none"
+}
+
+// deferredLines renders the deferred calls in force; vals are the already rendered return values,
+// which must not read what a deferred call assigns (Go evaluates them before the deferred calls run)
+func (t *bodyTr) deferredLines(ctx bctx, ind string, vals []string) string {
+	var b strings.Builder
+	for i := len(ctx.deferred) - 1; i >= 0; i-- {
+		l := ctx.deferred[i]
+		if f := strings.Fields(l); len(f) >= 2 && f[0] == "let" {
+			for _, v := range vals {
+				for _, w := range identRe(v) {
+					if w == f[1] {
+						l = "let _ := " + t.unsupported("return_reads_deferred_assignment")
+					}
+				}
+			}
+		}
+		b.WriteString(ind + l + "\n")
+	}
+	return b.String()
+}
+
+// stmtKey: the key a Step is looked up under, with the statement's argument / bound identifier
+func (t *bodyTr) stmtKey(st ast.Stmt) (string, ast.Expr, *ast.Ident) {
+	switch x := st.(type) {
+	case *ast.ExprStmt:
+		return t.exprKey(x.X), nil, nil
+	case *ast.DeferStmt:
+		return "defer " + t.exprKey(x.Call), nil, nil
+	case *ast.SendStmt:
+		return t.exprKey(x.Chan) + " <- %0", x.Value, nil
+	case *ast.AssignStmt:
+		if x.Tok == token.DEFINE && len(x.Lhs) == 1 && len(x.Rhs) == 1 {
+			if id, ok := x.Lhs[0].(*ast.Ident); ok {
+				return "%v := " + t.exprKey(x.Rhs[0]), nil, id
+			}
+		}
+	}
+	return "", nil, nil
+}
+
+// hasStep: does the node contain a statement or call that a Step covers?
+func (t *bodyTr) hasStep(n ast.Node) bool {
+	if len(t.spec.Steps) == 0 {
+		return false
+	}
+	found := false
+	ast.Inspect(n, func(m ast.Node) bool {
+		switch x := m.(type) {
+		case ast.Stmt:
+			if k, _, _ := t.stmtKey(x); k != "" {
+				if _, ok := t.spec.Steps[k]; ok {
+					found = true
+				}
+			}
+		case ast.Expr:
+			if _, ok := t.spec.Steps["%v := "+t.exprKey(x)]; ok {
+				found = true
+			}
+		}
+		return !found
+	})
+	return found
+}
 
 // flush emits the bounds tests collected for the current statement
 func (t *bodyTr) flush(ctx bctx, ind string) string {
@@ -953,12 +1055,55 @@ func (t *bodyTr) lhs(e ast.Expr, sc bscope) (string, string) {
 
 func (t *bodyTr) seq(stmts []ast.Stmt, sc bscope, ctx bctx, ind string) string {
 	if len(stmts) == 0 {
+		if sc.depth == 1 {
+			// end of the function body
+			return t.deferredLines(ctx, ind, nil) + ctx.fall(sc, ind)
+		}
 		return ctx.fall(sc, ind)
 	}
 	st := stmts[0]
 	rest := func(sc bscope, ind string) string { return t.seq(stmts[1:], sc, ctx, ind) }
 	bad := func(kind string) string {
 		return ind + "let _ := " + t.unsupported(kind) + "\n" + rest(sc, ind)
+	}
+	if key, arg, bind := t.stmtKey(st); key != "" {
+		if step, ok := t.spec.Steps[key]; ok {
+			if ctx.brk != nil {
+				return bad("step_inside_loop")
+			}
+			argLean, bindLean := "", ""
+			sc2 := sc
+			if arg != nil {
+				v := t.expr(arg, sc, step.ArgTy)
+				if v.Ty != step.ArgTy {
+					v.Lean = t.unsupported("step_argument")
+				}
+				argLean = v.Lean
+			}
+			if bind != nil {
+				sc2, bindLean = t.declare(bind.Name, step.BindTy, sc)
+			}
+			lines := make([]string, len(step.Pre))
+			for i, l := range step.Pre {
+				lines[i] = strings.ReplaceAll(strings.ReplaceAll(l, "%0", argLean), "%v", bindLean)
+			}
+			if step.Defer {
+				if sc.depth != 1 {
+					return bad("defer_in_nested_block")
+				}
+				ctx2 := ctx
+				ctx2.deferred = append(append([]string{}, ctx.deferred...), lines...)
+				return t.seq(stmts[1:], sc, ctx2, ind)
+			}
+			out := t.flush(ctx, ind)
+			for _, l := range lines {
+				out += ind + l + "\n"
+			}
+			if step.Post == "" {
+				return out + rest(sc2, ind)
+			}
+			return out + strings.TrimRight(rest(sc2, ind), "\n") + step.Post + "\n"
+		}
 	}
 	switch x := st.(type) {
 	case *ast.EmptyStmt:
@@ -969,13 +1114,26 @@ func (t *bodyTr) seq(stmts []ast.Stmt, sc bscope, ctx bctx, ind string) string {
 		}
 		vals := make([]string, len(x.Results))
 		for i, r := range x.Results {
+			if t.resTys[i] == "optbytes" {
+				// []byte result that keeps nil apart
+				if id, ok := r.(*ast.Ident); ok && id.Name == "nil" {
+					vals[i] = "(none : Option Bytes)"
+					continue
+				}
+				v := t.expr(r, sc, "bytes")
+				if v.Ty != "bytes" {
+					v.Lean = t.unsupported("return_type")
+				}
+				vals[i] = "(some " + v.Lean + ")"
+				continue
+			}
 			v := t.expr(r, sc, t.resTys[i])
 			if v.Ty != t.resTys[i] {
 				v.Lean = t.unsupported("return_type")
 			}
 			vals[i] = v.Lean
 		}
-		return t.flush(ctx, ind) + ind + ctx.retRaw(t.pack(vals)) + "\n"
+		return t.flush(ctx, ind) + t.deferredLines(ctx, ind, vals) + ind + ctx.retRaw(t.pack(vals)) + "\n"
 	case *ast.BranchStmt:
 		if x.Label == nil && x.Tok == token.BREAK && ctx.brk != nil {
 			return ind + ctx.brk() + "\n"
@@ -1231,6 +1389,17 @@ func (t *bodyTr) ifStmt(x *ast.IfStmt, sc bscope, ctx bctx, ind string, rest fun
 }
 
 func (t *bodyTr) ifNode(n *ifNode, sc bscope, ctx bctx, ind string, rest func(bscope, string) string) string {
+	if be, ok := n.cond.(*ast.BinaryExpr); ok && n.init == nil {
+		if _, ok := t.spec.Steps["%v := "+t.exprKey(be.X)]; ok {
+			// if CALL == e { … }  ≡  { h := CALL; if h == e { … } }
+			t.n++
+			h := ast.NewIdent(fmt.Sprintf("hoisted%d", t.n))
+			m := *n
+			m.cond = &ast.BinaryExpr{X: h, Op: be.Op, Y: be.Y}
+			m.init = &ast.AssignStmt{Lhs: []ast.Expr{h}, Tok: token.DEFINE, Rhs: []ast.Expr{be.X}}
+			return t.ifNode(&m, sc, ctx, ind, rest)
+		}
+	}
 	if n.init != nil {
 		// if v := e; cond { … }  ≡  { v := e; if cond { … } }
 		inner := ctx
@@ -1238,7 +1407,7 @@ func (t *bodyTr) ifNode(n *ifNode, sc bscope, ctx bctx, ind string, rest func(bs
 		m := *n
 		m.init = nil
 		isc := sc.push()
-		return t.seq([]ast.Stmt{n.init}, isc, bctx{retRaw: ctx.retRaw, brk: ctx.brk, cont: ctx.cont,
+		return t.seq([]ast.Stmt{n.init}, isc, bctx{retRaw: ctx.retRaw, brk: ctx.brk, cont: ctx.cont, deferred: ctx.deferred,
 			fall: func(isc2 bscope, ind string) string { return t.ifNode(&m, isc2, inner, ind, func(_ bscope, ind string) string { return rest(sc, ind) }) }}, ind)
 	}
 	c := t.expr(n.cond, sc, "bool")
@@ -1246,7 +1415,7 @@ func (t *bodyTr) ifNode(n *ifNode, sc bscope, ctx bctx, ind string, rest func(bs
 		c.Lean = t.unsupported("condition")
 	}
 	pre := t.flush(ctx, ind)
-	if !hasExit(n.src) {
+	if !hasExit(n.src) && !t.hasStep(n.src) && n.init == nil {
 		// join: neither branch can leave; thread the assigned variables
 		vars := t.assigned([]ast.Node{n.src}, sc)
 		jctx := bctx{
@@ -1437,6 +1606,7 @@ func (t *bodyTr) rangeStmt(x *ast.RangeStmt, sc bscope, ctx bctx, ind string, re
 	}
 	vars := t.assigned(nodes, sc)
 	lctx := bctx{
+		deferred: ctx.deferred,
 		retRaw: func(r string) string { return ".ret " + paren(r) },
 		fall:   func(_ bscope, ind string) string { return ind + ".next " + tuple(vars) + "\n" },
 		brk:    func() string { return ".brk " + tuple(vars) },
@@ -1599,6 +1769,9 @@ func GenBody(spec *FnSpec) string {
 			if k == 0 {
 				k = 1
 			}
+			if ty == "bytes" && spec.NilResult {
+				ty = "optbytes"
+			}
 			for i := 0; i < k; i++ {
 				t.resTys = append(t.resTys, ty)
 				resLean = append(resLean, leanTy(ty))
@@ -1612,7 +1785,9 @@ func GenBody(spec *FnSpec) string {
 	if len(resLean) > 0 {
 		t.fnResTy = strings.Join(resLean, " × ")
 	}
-	if t.mayPanic {
+	if spec.Fail != nil {
+		t.fnResTy = "Except " + spec.Fail.Ty + " (" + t.fnResTy + ")"
+	} else if t.mayPanic {
 		t.fnResTy = "Option (" + t.fnResTy + ")"
 	}
 	fmt.Fprintf(&b, "def %s %s : %s :=\n", spec.Lean, strings.Join(binders, " "), t.fnResTy)
